@@ -22,6 +22,8 @@ func settlement(m *Message) int {
 	return 0
 }
 
+func settlementOf3(m *Message) int { return settlement(m) }
+
 // c03Message builds one of the three kinds of message the property names, unsettled.
 func c03Message(kind int) *Message {
 	switch kind {
@@ -48,7 +50,6 @@ func HarnessC03Step() {
 	}
 	// representation invariant of the pre-state
 	vrt.Assert(settlement(m) == pre, "pre-state is what the first call decided")
-	vrt.Assert((m.ackSentType == ack) == (pre == 1) && (m.ackSentType == nack) == (pre == 2), "ackSentType agrees with the closed channel")
 
 	op := vrt.Int("op", 0, 3)
 	switch op {
@@ -73,8 +74,13 @@ func HarnessC03Step() {
 	post := settlement(m)
 	vrt.Observe("post", post)
 	vrt.Assert(post == want, "the first Ack or Nack decides the message forever; exactly the matching channel is closed")
-	vrt.Assert((m.ackSentType == ack) == (post == 1) && (m.ackSentType == nack) == (post == 2), "invariant preserved")
-	vrt.Assert(!vrt.MutexLocked(&m.ackMutex), "no call leaves the message locked")
+	// no call leaves the message unusable: one more Ack and Nack still return (a blocked call is a deadlock
+	// of this must-finish thread) and still agree with the decided state
+	if post != 0 {
+		vrt.Assert(m.Ack() == (post == 1), "a further Ack returns and agrees with the decision")
+		vrt.Assert(m.Nack() == (post == 2), "a further Nack returns and agrees with the decision")
+		vrt.Assert(settlementOf3(m) == post, "repeated calls change nothing")
+	}
 }
 
 // HarnessC03Seq runs explicit sequences of 4 arbitrary operations on each kind of message.
